@@ -25,7 +25,7 @@ CONSTANTS
   GIdents <- GIdentsM
   GActions = {"update", "reply", "changed", "error_update", "error_read"}
   GLevels <- GLevelsT
-  EmitOneIn = 1
+  EmitOneIn = 2
   MaxCbs = 2
   MaxWait = 1
   Depth = 2
